@@ -162,6 +162,12 @@ fn normalise(lines: &[String]) -> Vec<String> {
 /// ids / lengths / index jumps, duplicates, dropped completions): once with the device only
 /// *pretending* to overwrite the descriptor table and available ring, once doing it.  The
 /// second recording is what TLC validates; it must equal the first one event for event.
+/// Every fourth random history starts just below the wrap of the ring indices; decided by a mix
+/// of the seed so that it is independent of the feature flags (which follow the seed's low bits).
+fn near_wrap_start(seed: u64) -> bool {
+    (seed.wrapping_mul(0x9E37_79B9_7F4A_7C15) >> 61) & 3 == 1
+}
+
 pub fn run(p: &VqParams, sc: &str) -> VqOutcome {
     if p.mode != "adversary" {
         return run_inner(p, sc);
@@ -215,7 +221,10 @@ fn run_inner(p: &VqParams, sc: &str) -> VqOutcome {
     with_world(|w| w.end_new(q));
 
     let mut held: BTreeMap<u16, Sub> = BTreeMap::new();
-    let mut stats = json!({"adds":0,"add_refused":0,"pops":0,"pop_notready":0,"pop_wrong":0,"queries":0,"max_outstanding":0});
+    // adversary runs: buffers of consumed submissions whose token has not been handed out again
+    // (a caller that keeps one buffer set per token and pops whatever peek_used reports)
+    let mut consumed: BTreeMap<u16, Sub> = BTreeMap::new();
+    let mut stats = json!({"adds":0,"add_refused":0,"pops":0,"pop_notready":0,"pop_wrong":0,"pop_stale":0,"queries":0,"max_outstanding":0});
     let bump = |s: &mut Value, k: &str| s[k] = json!(s[k].as_u64().unwrap() + 1);
     let max_bufs = std::cmp::min(p.n + 1, 6);
     let wrap = p.mode == "wrap";
@@ -226,7 +235,7 @@ fn run_inner(p: &VqParams, sc: &str) -> VqOutcome {
     let bases: [u16; 6] = [0, 32768, 0, 16384, 32768, 49152];
     let mut next_base = 0usize;
     let mut i = 0usize;
-    if p.mode == "random" && p.seed % 4 == 1 {
+    if p.mode == "random" && near_wrap_start(p.seed) {
         // every fourth random history starts just below the wrap of the 16-bit ring indices, so
         // that out-of-order completion, partial polls and refused calls also happen across it
         let target: u16 = 0u16.wrapping_sub(3 + (p.seed % 23) as u16);
@@ -342,7 +351,10 @@ fn run_inner(p: &VqParams, sc: &str) -> VqOutcome {
         let outstanding = held.len();
         // in notify mode: more should_notify calls and avail_event moves, batches of adds in between
         let roll = if notify_mode && roll >= 60 { if roll < 80 { 91 } else if roll < 95 { 96 } else { roll } } else { roll };
-        let want_add = if wrap { outstanding == 0 || (outstanding < p.n && roll < 30) } else { roll < 40 };
+        // (histories that start just below the index wrap first fill the queue, so that a full
+        // queue - and refused submissions - straddle the wrap)
+        let crossing = p.mode == "random" && near_wrap_start(p.seed) && i < 40 + 2 * std::cmp::min(p.n, 64);
+        let want_add = if wrap { outstanding == 0 || (outstanding < p.n && roll < 30) } else if crossing { roll < 75 } else { roll < 40 };
         if want_add {
             // ---- add
             let (ni, no) = if wrap {
@@ -400,6 +412,7 @@ fn run_inner(p: &VqParams, sc: &str) -> VqOutcome {
             match r {
                 Ok(Ok(tok)) => {
                     bump(&mut stats, "adds");
+                    consumed.remove(&tok);
                     held.insert(tok, Sub { ins, outs });
                     let m = stats["max_outstanding"].as_u64().unwrap().max(held.len() as u64);
                     stats["max_outstanding"] = json!(m);
@@ -419,10 +432,13 @@ fn run_inner(p: &VqParams, sc: &str) -> VqOutcome {
             }
             let peek = queue.peek_used();
             let adversary = p.mode == "adversary";
-            if adversary && held.is_empty() {
+            // a repeated completion of a chain already consumed, popped with that chain's buffers
+            let stale = adversary && matches!(peek, Some(t) if !held.contains_key(&t) && consumed.contains_key(&t)) && rng.gen_bool(0.6);
+            if adversary && held.is_empty() && !stale {
                 continue;
             }
             let tok: u16 = match peek {
+                Some(t) if stale => t,
                 Some(t) if held.contains_key(&t) && (wrap || rng.gen_bool(0.85)) => t,
                 _ if adversary => {
                     // the caller keeps its side of the contract: only tokens it holds
@@ -440,7 +456,7 @@ fn run_inner(p: &VqParams, sc: &str) -> VqOutcome {
                     }
                 }
             };
-            let mut sub = held.remove(&tok);
+            let mut sub = if stale { consumed.remove(&tok) } else { held.remove(&tok) };
             let pre = sub.as_ref().map(|s| out_digest(&s.outs)).unwrap_or_default();
             with_world(|w| {
                 w.cur_q = Some(q);
@@ -477,10 +493,17 @@ fn run_inner(p: &VqParams, sc: &str) -> VqOutcome {
                 }
             });
             match r {
-                Ok(Ok(_)) => bump(&mut stats, "pops"),
+                Ok(Ok(_)) => {
+                    bump(&mut stats, "pops");
+                    if adversary {
+                        if let Some(s) = sub.take() {
+                            consumed.insert(tok, s);
+                        }
+                    }
+                }
                 Ok(Err(e)) => {
                     if let Some(s) = sub.take() {
-                        held.insert(tok, s);
+                        if stale { consumed.insert(tok, s); bump(&mut stats, "pop_stale"); } else { held.insert(tok, s); }
                     }
                     if e == virtio_drivers::Error::NotReady { bump(&mut stats, "pop_notready") } else { bump(&mut stats, "pop_wrong") }
                 }
